@@ -88,7 +88,15 @@ func dumpTree(r *Rig, rootH string) ([]DumpEnt, error) {
 					continue
 				}
 				if e.Attr == nil || !e.HasH {
-					return nil, fmt.Errorf("READDIRPLUS of %s: entry %q without attributes or handle", it.path, e.Name)
+					// attributes and handle are optional in READDIRPLUS: look the name up
+					lk := r.Call(&In{K: "lookup", Obj: it.h, Name: e.Name})
+					if lk.Status != 0 || lk.Attr == nil || !lk.HasH {
+						return nil, fmt.Errorf("READDIRPLUS of %s lists %q but LOOKUP of it fails (status %d)", it.path, e.Name, lk.Status)
+					}
+					if lk.Attr.FileID != e.FileID {
+						return nil, fmt.Errorf("READDIRPLUS of %s lists %q with file id %d, LOOKUP says %d", it.path, e.Name, e.FileID, lk.Attr.FileID)
+					}
+					e.Attr, e.H, e.HasH = lk.Attr, lk.H, true
 				}
 				p := it.path + e.Name
 				de := DumpEnt{Path: p, Kind: e.Attr.Type, Size: e.Attr.Size, FileID: e.FileID, H: e.H}
